@@ -1140,7 +1140,13 @@ class BoundsAnalysis:
                 why = 'no upper bound that keeps the sum inside %s' % ty
         else:
             why = 'not discharged (%s %s on %s)' % (kind, op, ty)
-        self.arith[pt] = {'kind': kind, 'op': op, 'ty': ty, 'ok': ok, 'why': why, 'span': t.get('s', '')}
+        ub_b = None
+        if op in ('Shl', 'Shr') and B is not None and not z.bottom:
+            zz = z.copy()
+            ub_b = B[1] if B[0] == Z else (None if zz.bound(B[0], Z) is None else zz.bound(B[0], Z) + B[1])
+        self.arith[pt] = {'kind': kind, 'op': op, 'ty': ty, 'ok': ok, 'why': why, 'span': t.get('s', ''), 'amount_ub': ub_b,
+                          'amount_const': bool(B is not None and B[0] == Z),
+                          'amount_loc': (B[0][1] if (B is not None and B[0] != Z) else None)}
 
     def check_assert(self, z, t, pt):
         m = t['msg']
@@ -1682,5 +1688,44 @@ def rule_vlq_terminated(ctx, config='dev'):
                 r.violation('%s:continuation' % w.path, e[1], w.path,
                             'a digit that is followed by another one is not known to carry the continuation bit (lower bound %s), or a '
                             'digit that may be the last is not below 32: the reader splits the number differently from the writer' % e[3])
+    r.check_floor()
+    return r
+
+
+def rule_decoder_width(ctx, config='dev'):
+    """the VLQ reader accumulates every digit a 32-bit field can need"""
+    from .. import anchors
+    from .panics import local_cone
+    f = ctx.facts(config)
+    r = RuleResult('DECODER-WIDTH', 'the VLQ reader keeps every digit that can carry bits of a 32-bit field: a magnitude below 2^32 plus the '
+                                    'sign bit needs 7 base64 digits (35 bits), so the accumulator is at least 35 bits wide and a digit is '
+                                    'shifted in for every position up to 30 — the guard that skips the shift (needed against overflow) may '
+                                    'only cut off positions beyond that')
+    r.floor = 1
+    entry = [x for x in f.body_list if x.name == 'decode_mappings' and x.d.get('pub') and x.promoted is None]
+    if len(entry) != 1:
+        raise anchors.AnchorMissing('public fn decode_mappings: %d' % len(entry))
+    dec = [m for ms in local_cone(f, entry[0]).values() for m in ms
+           if m.promoted is None and (m.d.get('impl_trait') or '').endswith('Iterator') and m.name == 'next' and m.d['kind'] != 'Closure']
+    if len(dec) != 1:
+        raise anchors.AnchorMissing('decoder Iterator::next in the decode_mappings cone: %d' % len(dec))
+    scope = [dec[0]] + [m for ms in local_cone(f, dec[0]).values() for m in ms if m is not dec[0]]
+    bits = {'u8': 8, 'i8': 8, 'u16': 16, 'i16': 16, 'u32': 32, 'i32': 32, 'u64': 64, 'i64': 64, 'usize': 64, 'isize': 64, 'u128': 128, 'i128': 128}
+    for b in scope:
+        a = BoundsAnalysis(f, b)
+        a.run()
+        for pt, v in sorted(a.arith.items()):
+            if v['op'] != 'Shl' or v['amount_const']:
+                continue
+            w = bits.get(v['ty'], 0)
+            ub = v['amount_ub']
+            ok = w >= 35 and (ub is None or ub >= 30)
+            r.site('%s: digits are shifted into a %d-bit accumulator for positions up to %s' % (b.path, w, 'any' if ub is None else ub),
+                   v['span'], 'ok' if ok else 'violation')
+            if not ok:
+                r.violation('%s:width' % b.path, v['span'], b.path,
+                            'the VLQ accumulator is %d bits wide and digits are shifted in only for positions up to %s: a field delta with '
+                            'magnitude >= 2^%d loses its high digits (7 digits / 35 bits are needed for 32-bit fields), so a well-formed '
+                            'mappings string decodes to different positions' % (w, ub, max(0, (ub or 0) + 5 - 1) if ub is not None else w - 1))
     r.check_floor()
     return r
